@@ -82,6 +82,15 @@ func genImports(seed int64, plain []int) importsInput {
 		}
 		in.Files = append(in.Files, f)
 	}
+	// the key a key-import names should often be worth importing: a label and something below it
+	for i := range in.Files {
+		for _, it := range in.Files[i].Items {
+			if it.K == "key" && strings.EqualFold(it.Sel, "a") && r.Intn(100) < 60 {
+				t := &in.Files[it.F-1]
+				t.Items = append(t.Items, impItem{K: "decl", D: 4, Sty: r.Intn(6)}, impItem{K: "decl", D: []int{3, 6, 30}[r.Intn(3)], Sty: r.Intn(6)})
+			}
+		}
+	}
 	return in
 }
 
